@@ -107,11 +107,13 @@ fn report(c: &C12Case) -> CaseReport {
         {
             let mut g = ctl.lock().unwrap();
             g.fault_at = faults.clone();
-            g.fault_kind = KINDS[(kind_idx + c.pair_seed as usize) % KINDS.len()];
-            g.fault_side_effects = (kind_idx + (c.pair_seed >> 8) as usize) % 2 == 1;
+            g.fault_kind = READ_KINDS[(kind_idx + c.pair_seed as usize) % READ_KINDS.len()];
+            // "If an error is returned then it must be guaranteed that no bytes were read" is what
+            // retry loops rely on for Interrupted: that kind never comes with side effects
+            g.fault_side_effects = (kind_idx + (c.pair_seed >> 8) as usize) % 2 == 1 && g.fault_kind != std::io::ErrorKind::Interrupted;
             g.faults_enabled = true;
         }
-        let mut trace = vec![format!("faults at read-side call(s) {:?} of {} ({:?}, side effects {})", faults, n, KINDS[(kind_idx + c.pair_seed as usize) % KINDS.len()], (kind_idx + (c.pair_seed >> 8) as usize) % 2 == 1)];
+        let mut trace = vec![format!("faults at read-side call(s) {:?} of {} ({:?}, side effects {})", faults, n, READ_KINDS[(kind_idx + c.pair_seed as usize) % READ_KINDS.len()], (kind_idx + (c.pair_seed >> 8) as usize) % 2 == 1 && READ_KINDS[(kind_idx + c.pair_seed as usize) % READ_KINDS.len()] != std::io::ErrorKind::Interrupted)];
         rep.evaluations += 1;
         match run_read_script(&image, &helper, c.max_buf, c.strict, &c.script, &ctl, &mut trace, c.no_retry_mask) {
             Ok(s) => {
@@ -181,7 +183,7 @@ pub fn def() -> PropDef {
     PropDef {
         id: "C12",
         level: "fault_enumeration",
-        rule: "workload = synthesized image (tree of up to 13 entries incl. a 3.5-14 KB stream /big, mini streams) + read-only script of 5-25 calls (open, walk, listings, entry, exists, whole-stream reads, handle read/read_exact/fill_buf+consume/seek/read_to_end with buffer sizes 1024/4096/default); the fault-free run counts N underlying read+seek calls; then one run per k in [0,N) with call k failing (kinds Other/UnexpectedEof/TimedOut in rotation), plus all pairs for N<=60 or 120 sampled nearby pairs; after every Err the same call is retried up to 3 times. Oracle per call: Err only if a fault fired during that call, otherwise exactly the fault-free value; bytes delivered by any read must equal the true content at the position the handle reports. evaluations = number of executions; a non-trivial item = an execution in which a fault fired inside a stream read, that call returned Err and a later read on the same handle returned bytes; distinct = distinct (case, fault positions).",
+        rule: "workload = synthesized image (tree of up to 13 entries incl. a 3.5-14 KB stream /big, mini streams) + read-only script of 5-25 calls (open, walk, listings, entry, exists, whole-stream reads, handle read/read_exact/fill_buf+consume/seek/read_to_end with buffer sizes 1024/4096/default); the fault-free run counts N underlying read+seek calls; then one run per k in [0,N) with call k failing (twelve error kinds in rotation, among them Interrupted and WouldBlock - also on seeks -, with and without side effects of the failing call), plus all pairs for N<=60 or 120 sampled nearby pairs; after every Err the same call is retried up to 3 times. Oracle per call: Err only if a fault fired during that call, otherwise exactly the fault-free value; bytes delivered by any read must equal the true content at the position the handle reports. evaluations = number of executions; a non-trivial item = an execution in which a fault fired inside a stream read, that call returned Err and a later read on the same handle returned bytes; distinct = distinct (case, fault positions).",
         assumptions: &["single faults are enumerated exhaustively per workload; workloads and pairs are sampled", "a failed read may leave the position anywhere: only data at the position the handle itself reports is judged"],
         quick_cases: 25,
         thorough_cases: 1500,
